@@ -687,7 +687,11 @@ func (x *fsExec) eventText() string {
 var fsKeep = []string{"C05/", "C06/"}
 
 func fsWrap(sc *fsScenario) *sched.Scenario {
-	return &sched.Scenario{Name: sc.Name, Run: func(t *testing.T, ctl *sched.Ctl) sched.Outcome {
+	group := ""
+	if sc.Gen {
+		group = "gen:*" + sc.Name[strings.Index(sc.Name, "/"):]
+	}
+	return &sched.Scenario{Name: sc.Name, Group: group, Run: func(t *testing.T, ctl *sched.Ctl) sched.Outcome {
 		x := fsExecute(t, sc, ctl)
 		all, sum, nt := x.check()
 		if os.Getenv("VERIF_DUMPALL") != "" {
@@ -834,6 +838,94 @@ func fsC05Scenarios(thorough bool) []*fsScenario {
 	return out
 }
 
+// fsGenScripts: every script of 1..maxLen packs over the pack alphabet {ins, del, ins+del, tick-only} x the distance of
+// the pack from the closing tick before it {same millisecond (logical part only), +1 ms, +10 ms}. Hybrid timestamps stay
+// legal: data is newer than the tick before it and not newer than its own closing tick.
+func fsGenScripts(maxLen int) (names []string, scripts [][]fsPack) {
+	kinds := []string{"i", "d", "x", "t"}
+	steps := []struct {
+		n  string
+		ms int64
+	}{{"=", 0}, {"+1", 1}, {"+10", 10}}
+	var rec func(name string, script []fsPack, ms, lg int64)
+	rec = func(name string, script []fsPack, ms, lg int64) {
+		if len(script) > 0 {
+			names = append(names, name)
+			scripts = append(scripts, append([]fsPack{}, script...))
+		}
+		if len(script) == maxLen {
+			return
+		}
+		for _, k := range kinds {
+			for _, st := range steps {
+				if len(script) == 0 && st.ms != 0 {
+					continue // the first pack has nothing before it
+				}
+				m, l := ms+st.ms, int64(0)
+				if st.ms == 0 {
+					l = lg + 1
+				}
+				var p fsPack
+				switch k {
+				case "i":
+					p = fsPack{Msgs: []fsMsg{{Kind: "ins", Ms: m, Lg: l}}, TickMs: m, TickLg: l + 1}
+				case "d":
+					p = fsPack{Msgs: []fsMsg{{Kind: "del", Ms: m, Lg: l}}, TickMs: m, TickLg: l + 1}
+				case "x":
+					p = fsPack{Msgs: []fsMsg{{Kind: "ins", Ms: m, Lg: l}, {Kind: "del", Ms: m, Lg: l + 1}}, TickMs: m, TickLg: l + 2}
+				case "t":
+					p = fsPack{TickMs: m, TickLg: l}
+				}
+				rec(name+k+st.n, append(script, p), p.TickMs, p.TickLg)
+			}
+		}
+	}
+	rec("", nil, 1000, 0)
+	return
+}
+
+// fsC05Generated: the generated family - every script (above) on one stream x batch size x {crash, downstream failure,
+// store failure, manual pause} at every visible step (deviation bound 1 inside the family).
+func fsC05Generated(thorough bool) []*fsScenario {
+	maxLen, counts, one := 3, []int{1, 2, 3}, 1
+	if thorough {
+		one = 2 // two deviations: repeated failures, a failure and a crash, two crashes
+	}
+	names, scripts := fsGenScripts(maxLen)
+	var out []*fsScenario
+	for i, script := range scripts {
+		data := 0
+		for _, p := range script {
+			data += len(p.Msgs)
+		}
+		if data == 0 {
+			continue // nothing to lose
+		}
+		for _, mc := range counts {
+			if mc > len(script)+1 {
+				continue // the batch never fills: same behaviour as the next smaller size
+			}
+			for _, mode := range []string{"crash", "down", "store", "pause"} {
+				c := fsMkColl(101, "c1", "src-dml_0")
+				c.Shards[0].Script = fsTail(append([]fsPack{}, script...), mc)
+				sc := &fsScenario{Name: fmt.Sprintf("gen:%s/b%d/%s", names[i], mc, mode), Colls: []*fsColl{c}, Tasks: []fsTask{{ID: "t0", URI: fsURI, Coll: "c1"}}, MaxCount: mc, Bound: &one, Gen: true}
+				switch mode {
+				case "crash":
+					sc.Crash = true
+				case "down":
+					sc.DownFault = true
+				case "store":
+					sc.StoreFault = true
+				case "pause":
+					sc.Pause = true
+				}
+				out = append(out, sc)
+			}
+		}
+	}
+	return out
+}
+
 func fsC06Scenarios(thorough bool) []*fsScenario {
 	var out []*fsScenario
 	layouts := []struct {
@@ -946,6 +1038,13 @@ func fsExplore(t *testing.T, res *ev.Result, prop string, bound int, scs []*fsSc
 			e.Bound = *kept[i].Bound
 		}
 		e.Shard, e.NShard = shard, nshard
+		if kept[i].Gen {
+			// generated families are many small scenarios: whole scenarios are dealt to the shards
+			if i%nshard != shard {
+				continue
+			}
+			e.Shard, e.NShard = 0, 1
+		}
 		e.Explore(sc)
 	}
 	e.Bound = bound
@@ -1016,7 +1115,7 @@ func TestVerifC05Resume(t *testing.T) {
 		bound = 3
 	}
 	res.Rule = "sched engine over the full stack (real MetaCDC, channel manager, readers, writer, batcher, etcd stores over fakeetcd / fakemq / fakedown): scheduling points = stream delivery (free), the downstream's answer to every replicate and DDL call and every checkpoint write, each with the alternatives proceed | fail | crash before | crash after (each non-default alternative costs one deviation), a manual pause; after a crash a new incarnation is started over the same store, downstream and source logs; paused tasks are resumed at quiescence; every execution ends, if anything is still unacknowledged, with a clean restart; oracle over the event log: a checkpoint write names the end of an acknowledged pack of its own stream with every earlier message of that stream acknowledged, acknowledgements have no gaps, checkpoints marked dropped never change, and after the final restart every source row has been acknowledged at least once"
-	fsExplore(t, res, "C05", bound, fsC05Scenarios(ev.Thorough()), 150*time.Second)
+	fsExplore(t, res, "C05", bound, append(fsC05Scenarios(ev.Thorough()), fsC05Generated(ev.Thorough())...), 150*time.Second)
 }
 
 // C03 across pause / resume / restart: the crash, fault and pause scenarios of C05 judged by the time clauses
